@@ -47,12 +47,29 @@ class Frozen(Cfg):
 
     def __init__(self):
         self._st = dict(STATE)
+        self._in_cli_context = 0
+
+    def cli_context(self, command):
+        """Settings of this config are only final inside the CLI's lifecycle hook (as for a config that loads its project
+        settings there): outside it the TypedDict limit reads as a larger fallback."""
+        import contextlib
+
+        @contextlib.contextmanager
+        def ctx():
+            self._in_cli_context += 1
+            try:
+                yield
+            finally:
+                self._in_cli_context -= 1
+
+        return ctx()
 
     def trace_store(self):
         return SQLiteStore.make_store(self._st["db"])
 
     def max_typed_dict_size(self):
-        return DefaultConfig.max_typed_dict_size(self) if self._st["k"] is None else self._st["k"]
+        k = DefaultConfig.max_typed_dict_size(self) if self._st["k"] is None else self._st["k"]
+        return k if self._in_cli_context else k + 7
 
     def type_rewriter(self):
         return DefaultConfig.type_rewriter(self) if self._st["rewriter"] == "default" else self._st["rewriter"]
